@@ -184,6 +184,10 @@ func (e *symEnv) bind(s *ast.AssignStmt) bool {
 }
 
 func (e *symEnv) ret(r *ast.ReturnStmt) (string, bool) {
+	if len(r.Results) == 1 {
+		// a function with one (boolean) result: the returned expression as a symbol
+		return "DVal " + qfull(e.sym(r.Results[0])), true
+	}
 	if len(r.Results) != 2 {
 		return "", false
 	}
@@ -389,6 +393,9 @@ func genDecisionSrc() {
 	gu := parseNoComments(filepath.Join(*repo, "decorator/resolver/guess/resolver.go"))
 	si := parseNoComments(filepath.Join(*repo, "decorator/resolver/simple/resolver.go"))
 	fmt.Fprintf(&b, "Definition guess_resolvepackage_src : list dstmt :=\n  %s.\n\n", decisionOf(gu, "RestorerResolver", "ResolvePackage", "guess.ResolvePackage"))
-	fmt.Fprintf(&b, "Definition simple_resolvepackage_src : list dstmt :=\n  %s.\n", decisionOf(si, "RestorerResolver", "ResolvePackage", "simple.ResolvePackage"))
+	fmt.Fprintf(&b, "Definition simple_resolvepackage_src : list dstmt :=\n  %s.\n\n", decisionOf(si, "RestorerResolver", "ResolvePackage", "simple.ResolvePackage"))
+	// the order in which the import manager names and lists packages
+	rf := parseNoComments(filepath.Join(*repo, "decorator/restorer.go"))
+	fmt.Fprintf(&b, "Definition packagepathorderless_src : list dstmt :=\n  %s.\n", decisionOf(rf, "", "packagePathOrderLess", "restorer.go packagePathOrderLess"))
 	writeIfChanged("DecisionSrc.v", b.String())
 }
